@@ -118,8 +118,8 @@ def run(ctx):
                 for (x, y) in ((a, b_), (b_, a)):
                     x, y = SEL.canon_place(x), SEL.canon_place(y)
                     # numeric form: u32::from(T::ID) == typ.0 ; trait form: <TagTypeId as PartialEq<TagType>>::eq(&typ, &T::ID) (numeric by C20)
-                    is_id = (x[0] == "call" and x[1] == T2 and SEL.unref(x[2][0])[0] == "cs" and "promoted" in SEL.unref(x[2][0])[1]) if via is None else \
-                        (SEL.unref(x)[0] == "cs" and "promoted" in SEL.unref(x)[1])
+                    is_id = (x[0] == "call" and x[1] == T2 and SEL.is_id_const(x[2][0])) if via is None else \
+                        SEL.is_id_const(x)
                     is_typ = (y == typ0) if via is None else (SEL.unref(y) == typ and "PartialEq<multiboot2::tag_type::TagType>" in str(via) and "TagTypeId" in str(via))
                     if is_id and is_typ:
                         pred_ok = True
@@ -162,8 +162,17 @@ def run(ctx):
         tails = [e for e in ex if e.kind not in ("None", "Some")]
         nones = [e for e in ex if e.kind == "None"]
         somes = [e for e in ex if e.kind == "Some"]
-        tail_ok = len(tails) == 1 and SEL.canon_place(N(tails[0].val)) == MMc and CH.own_is_variant(tails[0], BS, 0)
-        none_ok = bool(nones) and all(CH.guarded_by_variant(e.facts, BS, 1) for e in nones)
+        # the marker may also be looked up through its own typed getter (G1 row: efi_bs_not_exited_tag() = get_tag::<..NotExitedTag>())
+        BS_alts = [BS] + [("call", BI + g_, (arg(1),)) for g_, kind_ in S.MBI_GETTERS.items() if kind_ == "EfiBs"]
+        MM_alts = [MMc] + [("call", BI + g_, (arg(1),)) for g_, kind_ in S.MBI_GETTERS.items() if kind_ == "EfiMmap" and g_ != "efi_memory_map_tag"]
+        tail_ok = none_ok = False
+        for BS in BS_alts:
+            t_ok = len(tails) == 1 and SEL.canon_place(N(tails[0].val)) in MM_alts and CH.own_is_variant(tails[0], BS, 0)
+            n_ok = bool(nones) and all(CH.guarded_by_variant(e.facts, BS, 1) for e in nones)
+            if t_ok and n_ok:
+                tail_ok, none_ok = True, True
+                break
+            tail_ok, none_ok = tail_ok or t_ok, none_ok or n_ok
         ok = tail_ok and none_ok and not somes
         rt = None
         why_g3 = "exits: %d tail (get_tag::<EFIMemoryMapTag>() under `not-exited tag absent`: %s), %d None (all under `tag present`: %s), %d Some" % (
@@ -279,12 +288,68 @@ def compound(ctx, F, adts, ma):
                       i[0].get("span", ""), how=how, why=how)
 
 
+def bytesum_source(F, A, t):
+    """t (N-form) is the wrapping u8 sum of all bytes of a slice SRC, in order: returns SRC or None.
+    Forms: SRC.iter().fold(0, |acc, b| acc.wrapping_add(*b))  |  let mut s = 0u8; for b in SRC { s = s.wrapping_add(*b) } s"""
+    if t[0] == "call" and "Iterator>::fold" in str(t[1]) and len(t[2]) == 3 and t[2][1] == ("c", 0):
+        it = t[2][0]
+        clo = t[2][2]
+        if it[0] == "call" and cn(it[1]) == "core::slice::iter" and clo[0] == "aggr" and clo[1][0] == "closure":
+            ci = [c for k, c in F.insts.items() if c.get("path") == clo[1][1]]
+            if len(ci) >= 1:
+                r = N(an.of(F, ci[0]).ret()[0])
+                if r == ("wrap", "Add", (arg(2), ("deref", arg(3))), "u8"):
+                    return it[2][0]
+        return None
+    if t[0] == "opq" and len(t) > 3 and t[1] == "phi":
+        b = A.body
+        L = t[2]
+        be = b.back_edges()
+        if len({h for (_, h) in be}) != 1:
+            return None
+        loop = set()
+        for (tl, h) in be:
+            loop |= b.loop_blocks(h, tl)
+        defs = [d for d in A.tb.defs.get(L, []) if not d[3]]
+        init = [d for d in defs if d[1] not in loop]
+        upd = [d for d in defs if d[1] in loop]
+        if len(init) != 1 or len(upd) != 1 or init[0][0] != "stmt":
+            return None
+        st0 = b.stmts(init[0][1])[init[0][2]]
+        if N(A.tb.rvalue(st0["rv"], (init[0][1], init[0][2]), st0)) != ("c", 0) or A.body.local_ty(L) != "u8":
+            return None
+        if upd[0][0] == "stmt":
+            st1 = b.stmts(upd[0][1])[upd[0][2]]
+            uv = N(A.tb.rvalue(st1["rv"], (upd[0][1], upd[0][2]), st1))
+        else:
+            uv = N(A.tb.call_value(b.term(upd[0][1]), upd[0][1]))
+        if not (uv[0] == "wrap" and uv[1] == "Add" and uv[3] == "u8" and len(uv[2]) == 2):
+            return None
+        acc, x = uv[2]
+        if not (acc[0] == "opq" and acc[1] == "phi" and acc[2] == L):
+            acc, x = x, acc
+        if not (acc[0] == "opq" and acc[1] == "phi" and acc[2] == L):
+            return None
+        # x = *item, item = payload of the loop's only next() over a forward iterator of the slice
+        x = x[1] if x[0] == "deref" else x
+        if not (x[0] == "fld" and x[2] == 0 and x[1][0] == "dc" and x[1][2] == 1 and x[1][1][0] == "call" and "Iterator>::next" in str(x[1][1][1])):
+            return None
+        nexts = [bb for bb, tt in b.calls() if bb in loop and "Iterator>::next" in (M.callee_path(tt) or "") + str(M.callee_key(tt))]
+        if len(nexts) != 1 or not all(b.dominates(upd[0][1], tl) for (tl, _) in be):
+            return None
+        itr = x[1][1][2][0]
+        itr = itr[1] if itr[0] == "ref" else itr
+        for _ in range(3):
+            if itr[0] == "call" and len(itr[2]) == 1 and ("IntoIterator" in str(itr[1]) or cn(itr[1]) == "core::slice::iter"):
+                itr = itr[2][0]
+        return itr
+    return None
+
+
 def rsdp_checksum(F, inst, slen, v2, a):
     A = an.of(F, inst)
     rt, _ = A.ret()
     n = N(rt) if rt is not None else None
-    if n is None and not v2:
-        return False, "no single return term"
 
     def fold_ok(t, src_pred):
         # Eq(fold(iter(SRC), 0, closure wrapping_add), 0)
@@ -303,28 +368,41 @@ def rsdp_checksum(F, inst, slen, v2, a):
         r = N(an.of(F, ci[0]).ret()[0])
         return r == ("wrap", "Add", (arg(2), ("deref", arg(3))), "u8")
     whole = ("rawslice", arg(1), ("c", slen + 8), "u8")
+    from8 = ("call", "core::slice::index::<impl core::ops::index::Index<core::ops::range::RangeFrom<usize>> for [u8]>::index",
+             (whole, ("aggr", ("adt", "core::ops::range::RangeFrom", "RangeFrom", ("start",)), (("c", 8),))))
+
+    def sum_is_zero_over(t, src_pred):
+        """t = (wrapping byte sum over SRC) == 0 with src_pred(SRC)"""
+        if not (t[0] == "bin" and t[1] == "Eq" and t[3] == ("c", 0)):
+            return False
+        src_ = bytesum_source(F, A, t[2])
+        return src_ is not None and src_pred(SEL.canon_place(src_))
     if not v2:
-        def src(x):
-            return x == ("call", "core::slice::index::<impl core::ops::index::Index<core::ops::range::RangeFrom<usize>> for [u8]>::index",
-                         (whole, ("aggr", ("adt", "core::ops::range::RangeFrom", "RangeFrom", ("start",)), (("c", 8),))))
-        return fold_ok(n, src), str(n)[:200]
-    # v2: false unless bytes.get(8..) and then .get(..length) both succeed; then (sum == 0)
+        if n is None:
+            return False, "no single return term"
+        return sum_is_zero_over(n, lambda x: x == SEL.canon_place(from8)), str(n)[:200]
+    # v2: false unless the RSDP bytes (tag bytes from 8 on) have at least `length` bytes; then (sum over exactly those == 0).
+    # The bytes from 8 on are bytes.get(8..) (a None exit of its own) or &bytes[8..] (44 >= 8: always in bounds)
     ex = CH.exits(A)
     G8 = ("call", "core::slice::<impl [u8]>::get::<core::ops::range::RangeFrom<usize>>", (whole, ("aggr", ("adt", "core::ops::range::RangeFrom", "RangeFrom", ("start",)), (("c", 8),))))
     length_i = [f["i"] for f in a["fields"] if f["off"] == 28 and f["size"] == 4][0]
     ln = fld(deref(arg(1)), length_i)
-    G2 = ("call", "core::slice::<impl [u8]>::get::<core::ops::range::RangeTo<usize>>", (CH.payload_of(G8, 1), ("aggr", ("adt", "core::ops::range::RangeTo", "RangeTo", ("end",)), (ln,))))
-    falses = [e for e in ex if N(e.val) == ("c", 0)]
-    sums = [e for e in ex if N(e.val) != ("c", 0)]
-    f_ok = len(falses) == 2 and any(CH.own_is_variant(e, G8, 0) for e in falses) and \
-        any(CH.own_is_variant(e, SEL.canon_place(G2), 0) or CH.own_is_variant(e, G2, 0) for e in falses)
-    s_ok = False
-    if len(sums) == 1:
-        e = sums[0]
-        under = (CH.guarded_by_variant(e.facts, G2, 1) or CH.guarded_by_variant([SEL.canon_place(N(f)) for f in e.facts], SEL.canon_place(G2), 1)) and CH.guarded_by_variant(e.facts, G8, 1)
-        v = SEL.canon_place(N(e.val))
-        s_ok = under and fold_ok(v, lambda x: SEL.canon_place(x) == SEL.canon_place(CH.payload_of(G2, 1)))
-    return f_ok and s_ok and len(ex) == 3, "false when get(8..) or get(..length) is None: %s; otherwise wrapping byte sum over exactly those bytes == 0: %s (%d exits)" % (f_ok, s_ok, len(ex))
+    for (rsdp_t, need_g8) in ((CH.payload_of(G8, 1), True), (SEL.canon_place(from8), False)):
+        G2 = SEL.canon_place(("call", "core::slice::<impl [u8]>::get::<core::ops::range::RangeTo<usize>>", (rsdp_t, ("aggr", ("adt", "core::ops::range::RangeTo", "RangeTo", ("end",)), (ln,)))))
+        falses = [e for e in ex if N(e.val) == ("c", 0)]
+        sums = [e for e in ex if N(e.val) != ("c", 0)]
+        cf = lambda fs: [SEL.canon_place(N(f)) for f in fs]
+        f_ok = len(falses) == (2 if need_g8 else 1) and (not need_g8 or any(CH.own_is_variant(e, G8, 0) for e in falses)) and \
+            any(len(e.own) == 1 and CH.is_discr_fact(cf(e.own)[0], G2, 0) for e in falses)
+        s_ok = False
+        if len(sums) == 1:
+            e = sums[0]
+            under = CH.guarded_by_variant(cf(e.facts), G2, 1) and (not need_g8 or CH.guarded_by_variant(e.facts, G8, 1))
+            v = SEL.canon_place(N(e.val))
+            s_ok = under and sum_is_zero_over(v, lambda x: x == SEL.canon_place(CH.payload_of(G2, 1)))
+        if f_ok and s_ok and len(ex) == (3 if need_g8 else 2):
+            return True, "false when the RSDP part has fewer than `length` bytes; otherwise wrapping byte sum over exactly bytes[8..8+length] == 0 (%d exits)" % len(ex)
+    return False, "exits %s" % [(G.show(N(e.val))[:60], [G.show(N(f))[:80] for f in e.own]) for e in ex]
 
 
 def is_elem_read(n, buf, idx):
@@ -396,6 +474,16 @@ def buffer_type(ctx, F, fbt):
         rt, _ = R2.ret()
         n = N(rt) if rt is not None else None
         ok16 = False
+        if n is not None and n[0] == "from_bytes" and n[1] == "from_le_bytes" and n[3] == "u16":
+            # u16::from_le_bytes([first byte, second byte]) - the same little-endian composition
+            arr = n[2]
+            calls16 = [bb for bb, t in R2.body.calls() if M.callee_key(t) == r8[0]["key"]]
+            if arr[0] == "aggr" and arr[1] == ("array",) and len(arr[2]) == 2 and len(calls16) == 2:
+                first, second = sorted(calls16, key=lambda x: R2.body.rpo.index(x))
+                raw = G.strip(rt)
+                rarr = G.strip(raw[2])
+                sites = [G.strip(x)[3][1] if G.strip(x)[0] == "call" and G.strip(x)[3] is not None else None for x in rarr[2]]
+                ok16 = sites == [first, second] and R2.body.dominates(first, second) and first != second
         if n is not None and n[0] == "bin" and n[1] == "BitOr":
             hi, lo = n[2], n[3]
             is_rd = lambda x: x[0] == "call" and x[1] == r8[0]["key"]
